@@ -216,10 +216,14 @@ impl ClientTlsSession {
         let Some(handshake_kind) = self.tls_conn.handshake_kind() else {
             return Ok(());
         };
-        let raw_params = self
-            .tls_conn
-            .quic_transport_parameters()
-            .expect("Parameters must be known at this point");
+        // RFC 9001 section 8.2: EncryptedExtensions without the quic_transport_parameters
+        // extension close the connection with the equivalent of a missing_extension alert
+        let raw_params = self.tls_conn.quic_transport_parameters().ok_or_else(|| {
+            QuicError::with_default_fty(
+                ErrorKind::Crypto(109),
+                "quic_transport_parameters extension is missing from EncryptedExtensions",
+            )
+        })?;
         let mut parameters = parameters.lock_guard()?;
         let remebered = parameters.remembered().cloned();
         let params = ServerParameters::parse_from_bytes(raw_params)?;
@@ -325,10 +329,15 @@ impl ServerTlsSession {
         parameters: &ArcParameters,
         zero_rtt_keys: &ArcZeroRttKeys,
     ) -> Result<(), Error> {
+        // RFC 9001 section 8.2: a ClientHello without the quic_transport_parameters extension
+        // closes the connection with the equivalent of a missing_extension alert
         let client_params = ClientParameters::parse_from_bytes(
-            self.tls_conn
-                .quic_transport_parameters()
-                .expect("Client parameters must be present in ClientHello"),
+            self.tls_conn.quic_transport_parameters().ok_or_else(|| {
+                QuicError::with_default_fty(
+                    ErrorKind::Crypto(109),
+                    "quic_transport_parameters extension is missing from ClientHello",
+                )
+            })?,
         )?;
 
         let client_name = client_params.get::<String>(ParameterId::ClientName);
